@@ -8,7 +8,6 @@ NA.update({
  'C19': 'planned (regex -> z3 against reference statement grammars) but not built in the time available; not replaced by another technique',
  'C35': 'planned (C-semantics interpretation of the transpiled kernel + ISO-C wrapper) but not built in the time available',
  'C36': 'planned (Python-semantics interpretation of the generated function) but not built in the time available',
- 'C39': 'planned (scheduler-driven parametrisation on scratch projects, entry signature changes) but not built in the time available',
  'C02': 'pure text/structure identity over programs: no value domain for a solver (behavioural shadow covered by C01)',
  'C14': 'tree/node-identity property; CrossHair cannot execute Transformer (proxy intolerance on node hashing) and a hand encoding would model, not run, the code',
  'C15': 'pure structural search result; visitors not executable symbolically, no value domain',
@@ -114,3 +113,7 @@ claim('C20', 'model_checking',
       'PARTIAL (span-arithmetic kernel only): CrossHair confirms over all paths, for symbolic text over {a, b, newline} (length <= 4-6), symbolic character span and first line number, that Source objects derived by clone_with_span / clone_lines / clone_with_string / join_source_list from a Source that matches the file are again consistent with the file.',
       'Which span each frontend attaches to which node kind needs fparser / the regex frontend under CrossHair (not executable): NOT claimed.',
       'CrossHair symbolic execution over symbolic strings and spans', 'E-XH', 'DESIGN.md#C20')
+claim('C39', 'translation_validation',
+      'A driver + kernels project is written to a scratch directory and processed by the real Scheduler with ParametriseTransformation (5 choices of parametrised arguments / values, replace_by_value on/off). (a) z3 proves the transformed driver equivalent to the original for every input in which the parametrised dummies have the fixed values; (b) z3 proves that no input with a non-matching value escapes the generated guard (the transformed driver aborts).',
+      TV_NOTE + ' Outside: custom abort / replace callbacks.',
+      'translation validation (z3 equivalence under the matching assumption) + SMT unreachability of a non-aborting mismatch', 'E-SMT', 'DESIGN.md#C39')
